@@ -60,6 +60,32 @@ def total(a):
     return a.get_potential_energy() + a.get_kinetic_energy()
 
 
+def reference_ke_scenarios(V, seed, tag):
+    # the reference kinetic energy is that of the momenta the ATOMS carry when the trajectory starts, whatever the distribution
+    # returns and whatever the atoms' constraints or a forced rescaling did to the draw (observed at the integrator's entry)
+    import functools
+    from ase.constraints import FixAtoms as _Fix
+
+    class Watch(Verlet):
+        def integrate(self, context):
+            self.seen_ke = context.atoms.get_kinetic_energy()
+            return super().integrate(context)
+    for s in range(seed, seed + 4):
+        for variant in ("default distribution", "default distribution, FixAtoms", "forced=True", "forced=True, FixAtoms"):
+            a, g = system(s, n=3)
+            if "FixAtoms" in variant:
+                a.set_constraint(_Fix(indices=[1]))
+            c = ctx_of(a, g)
+            dist = functools.partial(maxwell_boltzmann_distribution, forced=True) if "forced" in variant else maxwell_boltzmann_distribution
+            op = Watch(dt=0.5, max_steps=3)
+            mv = HamiltonianDisplacementMove(distribution=dist, operation=op)
+            c.last_results = {}
+            mv(c)
+            V.case({"seed": s, "reference_ke": variant})
+            if abs(c.last_kinetic_energy - op.seen_ke) > 1e-12 * max(1.0, abs(op.seen_ke)):
+                V.add(tag, {"seed": s, "variant": variant}, f"context has {c.last_kinetic_energy}, the atoms start the trajectory with {op.seen_ke}")
+
+
 def standin(tier, seed):
     V = Violations()
     n_sys = 6 if tier == "quick" else 60
@@ -139,7 +165,8 @@ def standin(tier, seed):
         V.case({"seed": s, "reference_ke": True})
         if abs(c.last_kinetic_energy - seen["ke"]) > 1e-12 * max(1.0, abs(seen["ke"])):
             V.add("Hamiltonian:reference_kinetic_energy", {"seed": s}, f"context has {c.last_kinetic_energy}, freshly drawn momenta have {seen['ke']}")
-    return V.result(bound=f"{n_sys} random anharmonic 3-atom systems x dt in (0.05,0.5,1) fs x steps in (1,2,7,40) x both constraint branches; {3 * n} momentum components")
+    reference_ke_scenarios(V, seed, "Hamiltonian:reference_kinetic_energy")
+    return V.result(bound=f"reference kinetic energy under 4 distribution / constraint variants; {n_sys} random anharmonic 3-atom systems x dt in (0.05,0.5,1) fs x steps in (1,2,7,40) x both constraint branches; {3 * n} momentum components")
 
 
 def replay(case):
